@@ -44,11 +44,13 @@ GFI_LEVEL_NOTE = ("Trusted base: harness/jaxcompat.py; the model-IR builder (har
 reg(
     "C01",
     "Programs are drawn from the model-IR grammar (distributions incl. event-shaped ones, @gen calls with kwargs, Vmap / "
-    "vmapped distributions / repeat, Scan, Cond with shared addresses; nesting depth <= 3) together with arguments; a case "
+    "vmapped distributions / repeat, Scan, Cond with shared addresses; nesting depth <= 3; combinators applied directly to "
+    "combinators: dist.vmap().vmap(), Scan(f).vmap(), Scan(f.vmap()), Cond(f.vmap(), g.vmap()), Cond(f, g).vmap() with per-lane "
+    "conditions) together with arguments; a case "
     "is one program x argument tuple, run in the modes seed / jit(seed) / vmap-over-keys / unseeded eager. Non-trivial: "
     ">= 2 sites with a data dependency between them, or >= 1 combinator. Distinct = distinct hash of (program, args).",
     quick={"shards": 16, "timeout_s": 3000, "n_programs": 6, "n1": 400,
-           "required_classes": ["C01.prog_with_scan", "C01.prog_with_vmap", "C01.prog_with_cond", "C01.prog_with_call",
+           "required_classes": ["C01.prog_with_vvdist", "C01.prog_with_vscan", "C01.prog_with_scanv", "C01.prog_with_condv", "C01.prog_with_vcond", "C01.prog_with_scan", "C01.prog_with_vmap", "C01.prog_with_cond", "C01.prog_with_call",
                                 "C01.prog_with_kwargs", "C01.prog_with_event", "C01.law_exact-pmf", "C01.law_pit"]},
     thorough={"shards": 16, "timeout_s": 4 * 3600, "n_programs": 48, "n1": 1500,
               "required_classes": ["C01.prog_with_scan", "C01.prog_with_vmap", "C01.prog_with_cond", "C01.law_exact-pmf", "C01.law_pit"]},
@@ -62,7 +64,7 @@ reg(
     "and the program has a combinator or a data dependency. Distinct = hash of (program, args, S).",
     quick={"shards": 16, "timeout_s": 3000, "n_cases": 7, "n1": 400,
            "required_classes": ["C02.subset_none", "C02.subset_all", "C02.subset_partial_inside_subcall",
-                                "C02.subset_whole_subcall_missing", "C02.prog_with_scan", "C02.prog_with_vmap", "C02.prog_with_cond"]},
+                                "C02.subset_whole_subcall_missing", "C02.prog_with_vvdist", "C02.prog_with_vscan", "C02.prog_with_scanv", "C02.prog_with_condv", "C02.prog_with_vcond", "C02.prog_with_scan", "C02.prog_with_vmap", "C02.prog_with_cond"]},
     thorough={"shards": 16, "timeout_s": 4 * 3600, "n_cases": 56, "n1": 1500,
               "required_classes": ["C02.subset_none", "C02.subset_all", "C02.subset_partial_inside_subcall", "C02.subset_whole_subcall_missing"]},
 )
@@ -75,7 +77,7 @@ reg(
     "or args changed, and the program has a combinator or a data dependency. Distinct = hash of the whole case.",
     quick={"shards": 16, "timeout_s": 3000, "n_cases": 12, "n_top": 3,
            "required_classes": ["C03.top_level_scan", "C03.top_level_vmap", "C03.flip", "C03.noflip", "C03.args_changed", "C03.args_same", "C03.constraints_some",
-                                "C03.constraints_none", "C03.prog_with_scan", "C03.prog_with_vmap", "C03.prog_with_cond"]},
+                                "C03.constraints_none", "C03.prog_with_vvdist", "C03.prog_with_vscan", "C03.prog_with_scanv", "C03.prog_with_condv", "C03.prog_with_vcond", "C03.prog_with_scan", "C03.prog_with_vmap", "C03.prog_with_cond"]},
     thorough={"shards": 16, "timeout_s": 4 * 3600, "n_cases": 96, "n_top": 24,
               "required_classes": ["C03.top_level_scan", "C03.flip", "C03.noflip", "C03.args_changed", "C03.constraints_some"]},
 )
@@ -88,7 +90,7 @@ reg(
     "asserted. Non-trivial: the selection selects a proper non-empty subset of the leaves, or the program has a Scan/Vmap "
     "sub-call. Distinct = hash of the whole case.",
     quick={"shards": 16, "timeout_s": 3000, "n_cases": 8, "n1": 400,
-           "required_classes": ["C04.sel_none", "C04.sel_all", "C04.sel_proper", "C04.prog_with_scan", "C04.prog_with_vmap",
+           "required_classes": ["C04.sel_none", "C04.sel_all", "C04.sel_proper", "C04.prog_with_scan", "C04.prog_with_vmap", "C04.prog_with_vvdist", "C04.prog_with_vscan", "C04.prog_with_scanv", "C04.prog_with_condv", "C04.prog_with_vcond",
                                 "C04.prog_with_cond", "C04.selection_reaches_into_subcall", "C04.sel_with_connective", "C04.args_changed"]},
     thorough={"shards": 16, "timeout_s": 4 * 3600, "n_cases": 64, "n1": 1500,
               "required_classes": ["C04.sel_none", "C04.sel_all", "C04.sel_proper", "C04.prog_with_scan", "C04.prog_with_vmap"]},
@@ -139,14 +141,18 @@ reg(
 reg(
     "C13",
     "A case is (distribution among the 24 exported ones + 4 user-wrapped ones via tfp_distribution/distribution, parameters from "
-    "the documented domain, use mode among sample_shape / vmap over keys / modular_vmap / @gen site / keyword parameters). "
+    "the documented domain, use mode among sample_shape / vmap over keys / modular_vmap / @gen site / keyword parameters / mapped "
+    "parameters (positional, keyword, with a per-lane sample_shape)). In addition a fixed sweep of 48 parameter settings at the edge of "
+    "the documented domains (probabilities 0, 1, 1e-9, 1-1e-7; logits +-25; scales 1e-3 / 1e3; shapes < 1 and >> 1; large counts and "
+    "rates; near-one-hot logits) compares the log density / mass with the float64 reference at quantile points and checks that certain "
+    "outcomes are always drawn. "
     "Every run visits every distribution at least once (fixed-parameter sweep) in addition to the generated cases. Each case "
     "evaluates logpdf on 2001 grid points (continuous) or the whole (truncated) support (discrete). Non-trivial: every case "
     "(parameters are never the defaults). Distinct = (distribution, mode, parameters).",
     quick={"shards": 16, "timeout_s": 3000, "n_cases": 12, "n1": 4000,
            "required_classes": ["C13.dist_" + d for d in ["normal", "flip", "categorical", "exponential", "geometric", "multivariate_normal",
                                                           "bernoulli", "binomial", "negative_binomial", "gamma", "dirichlet", "multinomial", "zipf",
-                                                          "tfp:Logistic", "custom:shifted_exponential"]] + ["C13.mode_" + m for m in ["sample_shape", "vmap_keys", "modular_vmap", "gen_site", "kwargs", "vmap_mapped_params", "vmap_mapped_kwargs"]]},
+                                                          "tfp:Logistic", "custom:shifted_exponential"]] + ["C13.mode_" + m for m in ["sample_shape", "vmap_keys", "modular_vmap", "gen_site", "kwargs", "vmap_mapped_params", "vmap_mapped_kwargs", "vmap_mapped_params_ss"]] + ["C13.edge_of_domain"]},
     thorough={"shards": 16, "timeout_s": 3 * 3600, "n_cases": 96, "n1": 20000, "required_classes": ["C13.dist_normal", "C13.dist_geometric"]},
 )
 
